@@ -168,6 +168,9 @@ func guardMixin(c *Ctx) {
 					if fv == nil || !c.paramRooted(fi, lx, 0) || fv.Pkg() == nil || fv.Pkg().Path() != core.SpecPath {
 						continue
 					}
+					if !c.isPrimaryParam(mix, fi, reach, 0) {
+						continue // the first parameter of this helper does not receive (a part of) the primary
+					}
 					t := fv.Type()
 					switch {
 					case core.IsSlice(t):
@@ -311,6 +314,7 @@ func guardMixin(c *Ctx) {
 	c.skipFlow(reach)
 	c.mixinSections(mix)
 	c.opIDRules(reach)
+	c.mapEquality(reach)
 }
 
 func isBuiltin(info *types.Info, call *ast.CallExpr, name string) bool {
@@ -705,6 +709,51 @@ func (c *Ctx) opIDRules(reach []*core.FuncInfo) {
 				}
 				return true
 			})
+			if as.Tok == token.ADD_ASSIGN {
+				hasOld = true // id += suffix keeps the old id
+			}
+			// a suffix prepared by the caller: follow the parameter to the arguments at the call sites
+			ast.Inspect(as.Rhs[0], func(m ast.Node) bool {
+				id, ok := m.(*ast.Ident)
+				if !ok {
+					return true
+				}
+				po := info.Uses[id]
+				idx, isParam := c.paramIndexOf(fi, po)
+				if po == nil || !isParam {
+					return true
+				}
+				for _, caller := range reach {
+					cinfo := c.info(caller)
+					for _, call := range calls(caller.Decl.Body) {
+						if c.P.StaticCallee(caller, call) != fi.Obj || idx >= len(call.Args) {
+							continue
+						}
+						arg := call.Args[idx]
+						if o := core.ObjOf(cinfo, arg); o != nil {
+							if defs := c.P.Locals(caller).Defs[o]; len(defs) == 1 && defs[0].Kind == core.DefAssign {
+								arg = defs[0].Expr
+							}
+						}
+						ast.Inspect(arg, func(k ast.Node) bool {
+							if e, ok := k.(ast.Expr); ok {
+								if sv, ok := core.ConstString(cinfo, e); ok && strings.Contains(sv, "Mixin") {
+									hasConst = true
+								}
+							}
+							if aid, ok := k.(*ast.Ident); ok {
+								if o := cinfo.Uses[aid]; o != nil && c.P.Locals(caller).Params[o] {
+									if b, ok := o.Type().Underlying().(*types.Basic); ok && b.Info()&types.IsInteger != 0 {
+										hasIdx = true
+									}
+								}
+							}
+							return true
+						})
+					}
+				}
+				return true
+			})
 			c.S.Decide(hasOld && hasConst && hasIdx, "C18", "GUARD-RENAME", key+"/new-name", c.P.Pos(as.Pos()),
 				"new id = old id + \"Mixin\" + mixin index", "the new id "+rhs+" is not built from the old id, the \"Mixin\" tag and the mixin index")
 			// recorded afterwards: a later sibling in the loop body stores IDSET[<id>] = true
@@ -731,6 +780,42 @@ func (c *Ctx) opIDRules(reach []*core.FuncInfo) {
 							if ix, ok := core.Unparen(a2.Lhs[0]).(*ast.IndexExpr); ok && sameExpr(ix.X, idSet) && sameExpr(ix.Index, sel) {
 								recorded = true
 							}
+						}
+					}
+					// every way of leaving the iteration before the recording is the empty-id test and nothing else:
+					// a non-empty id that does not collide must be recorded too
+					for _, st := range rs.Body.List {
+						if pm.IsAncestor(st, as) {
+							break
+						}
+						leaves := false
+						ast.Inspect(st, func(k ast.Node) bool {
+							switch x := k.(type) {
+							case *ast.FuncLit, *ast.RangeStmt, *ast.ForStmt:
+								return false
+							case *ast.BranchStmt:
+								if x.Tok == token.CONTINUE || x.Tok == token.BREAK || x.Tok == token.GOTO {
+									leaves = true
+								}
+							case *ast.ReturnStmt:
+								leaves = true
+							}
+							return true
+						})
+						if !leaves {
+							continue
+						}
+						onlyEmpty := false
+						if ifs, ok := st.(*ast.IfStmt); ok && ifs.Else == nil && ifs.Init == nil {
+							onlyEmpty = true
+							for _, cd := range core.SplitCond(ifs.Cond, false) {
+								if x, empty, ok := core.EmptyTest(info, cd); !ok || !empty || !sameExpr(x, sel) {
+									onlyEmpty = false
+								}
+							}
+						}
+						if !onlyEmpty {
+							recorded = false
 						}
 					}
 				}
@@ -762,16 +847,53 @@ func (c *Ctx) opIDRules(reach []*core.FuncInfo) {
 				return true
 			}
 			ast.Inspect(rs.Body, func(m ast.Node) bool {
-				as, ok := m.(*ast.AssignStmt)
-				if !ok || len(as.Lhs) != 1 {
-					return true
-				}
-				ix, ok := core.Unparen(as.Lhs[0]).(*ast.IndexExpr)
-				if !ok {
-					return true
-				}
-				mt, ok := info.TypeOf(ix.X).Underlying().(*types.Map)
-				if !ok || !core.IsBool(mt.Elem()) {
+				var as ast.Node
+				switch x := m.(type) {
+				case *ast.AssignStmt:
+					if len(x.Lhs) != 1 {
+						return true
+					}
+					ix, ok := core.Unparen(x.Lhs[0]).(*ast.IndexExpr)
+					if !ok {
+						return true
+					}
+					mt, ok := info.TypeOf(ix.X).Underlying().(*types.Map)
+					if !ok || !core.IsBool(mt.Elem()) {
+						return true
+					}
+					as = x
+				case *ast.CallExpr:
+					// a helper that inserts into the id set it is handed
+					callee := c.P.StaticCallee(fi, x)
+					g := c.P.Funcs[callee]
+					if callee == nil || g == nil || g.Decl == nil || g.Decl.Body == nil {
+						return true
+					}
+					inserts := false
+					gsig := callee.Type().(*types.Signature)
+					ginfo := c.info(g)
+					for i := 0; i < gsig.Params().Len() && i < len(x.Args); i++ {
+						po := gsig.Params().At(i)
+						mt, isMap := po.Type().Underlying().(*types.Map)
+						if !isMap || !core.IsBool(mt.Elem()) {
+							continue
+						}
+						ast.Inspect(g.Decl.Body, func(k ast.Node) bool {
+							if a2, ok := k.(*ast.AssignStmt); ok {
+								for _, l := range a2.Lhs {
+									if ix, ok := core.Unparen(l).(*ast.IndexExpr); ok && core.ObjOf(ginfo, ix.X) == po {
+										inserts = true
+									}
+								}
+							}
+							return true
+						})
+					}
+					if !inserts {
+						return true
+					}
+					as = x
+				default:
 					return true
 				}
 				guarded := false
@@ -1008,4 +1130,85 @@ func stmtPaths(info *types.Info, st ast.Stmt, isA, isB func(ast.Stmt) bool) []pa
 		p.b = 1
 	}
 	return []pathSum{p}
+}
+
+// mapEquality (C17, GUARD-MAPEQ — the "one-sided comparison" shape): a bool function of two maps of the same type
+// that ranges over one of them looking the keys up in the other decides inclusion, not equality, unless it also
+// compares the two lengths or ranges over the other map too. Used as the duplicate test of a merge, it drops an
+// entry that is a strict superset of one already present (and reports a collision that is none).
+func (c *Ctx) mapEquality(reach []*core.FuncInfo) {
+	n := 0
+	for _, fi := range reach {
+		sig := fi.Obj.Type().(*types.Signature)
+		if sig.Params().Len() != 2 || sig.Results().Len() != 1 || !core.IsBool(sig.Results().At(0).Type()) {
+			continue
+		}
+		a, b := sig.Params().At(0), sig.Params().At(1)
+		if !core.IsMap(a.Type()) || !types.Identical(a.Type(), b.Type()) {
+			continue
+		}
+		info := c.info(fi)
+		ranged := map[types.Object]bool{}
+		lenCompared := false
+		ast.Inspect(fi.Decl.Body, func(nd ast.Node) bool {
+			switch x := nd.(type) {
+			case *ast.RangeStmt:
+				if o := core.ObjOf(info, x.X); o == a || o == b {
+					ranged[o] = true
+				}
+			case *ast.BinaryExpr:
+				isLen := func(e ast.Expr, of types.Object) bool {
+					call, ok := core.Unparen(e).(*ast.CallExpr)
+					return ok && isBuiltin(info, call, "len") && len(call.Args) == 1 && core.ObjOf(info, call.Args[0]) == of
+				}
+				if (x.Op == token.EQL || x.Op == token.NEQ) && (isLen(x.X, a) && isLen(x.Y, b) || isLen(x.X, b) && isLen(x.Y, a)) {
+					lenCompared = true
+				}
+			}
+			return true
+		})
+		if len(ranged) == 0 {
+			continue
+		}
+		n++
+		ok := lenCompared || len(ranged) == 2
+		c.S.Decide(ok, "C17", "GUARD-MAPEQ", fi.QName(), c.P.Pos(fi.Decl.Pos()),
+			"the comparison of the two maps is two-sided (both lengths, or both directions)",
+			fi.Name()+" ranges over one of its two maps only and never compares their lengths: it answers true when the first is included in the second, so the merge treats an entry that extends an existing one as a duplicate — it is dropped and reported as a collision")
+	}
+	if n == 0 {
+		c.S.Note("GUARD-MAPEQ: no hand-written comparison of two maps below Mixin (the pinned tree uses reflect.DeepEqual)")
+	}
+}
+
+// isPrimaryParam: the first parameter of fi receives the primary document or a part of it: fi is Mixin, or at every
+// call site below Mixin the first argument is rooted at the first parameter of a caller for which the same holds.
+func (c *Ctx) isPrimaryParam(mix, fi *core.FuncInfo, reach []*core.FuncInfo, depth int) bool {
+	if fi == mix {
+		return true
+	}
+	if depth > 4 {
+		return false
+	}
+	sites := 0
+	for _, caller := range reach {
+		for _, call := range calls(caller.Decl.Body) {
+			fns, _ := c.P.Callees(caller, call)
+			hit := false
+			for _, fn := range fns {
+				if fn == fi.Obj {
+					hit = true
+				}
+			}
+			if !hit {
+				continue
+			}
+			sites++
+			if len(call.Args) == 0 || !c.paramRooted(caller, call.Args[0], 0) || !c.isPrimaryParam(mix, caller, reach, depth+1) {
+				// a call through a table of steps passes the loop's own arguments: accept `step(primary, m)`
+				return false
+			}
+		}
+	}
+	return sites > 0
 }
